@@ -101,6 +101,10 @@ type Program struct {
 	Par  *Parallel `json:"par,omitempty"`
 	F    Features  `json:"f,omitempty"`
 	Fam  string    `json:"fam,omitempty"`
+	// Raw, if set, is the complete source text (with PKG, ID and MOD
+	// placeholders); Expect says whether cff must accept it.
+	Raw    string `json:"raw,omitempty"`
+	Expect string `json:"expect,omitempty"` // "accept" | "reject"
 }
 
 // JSON renders the program (stable).
@@ -219,6 +223,9 @@ func (p *Program) Key() string {
 			b.WriteString(" em=" + p.Par.Emitters)
 		}
 		b.WriteString("}")
+	}
+	if p.Raw != "" {
+		b.WriteString("raw{" + p.Fam + "}")
 	}
 	fs, _ := json.Marshal(p.F)
 	if string(fs) != "{}" {
